@@ -116,6 +116,13 @@ def scen_source(env, dest_kind):
         else:
             env.check('retval', r is True)
             env.check('value-item', eq_(d.output, v))
+        if dest_kind == 'sblock':
+            # falsy positional values are values too
+            for special in (None, False, 0, ''):
+                n0 = len(d.got)
+                ev.send(special)
+                env.check('value-item', len(d.got) == n0 + 1 and 'value' in d.got[-1] and d.got[-1]['value'] is special,
+                          info=lambda: (special, d.got[-1]))
         # non-string sources are refused
         try:
             ev.send(source=5)
